@@ -321,7 +321,39 @@ func propTotalScaling(args []string) string {
 	return ""
 }
 
+// total.stmt / total.query: the hostile inputs of total.bytes through ParseStatement / ParseQuery,
+// compared with the statement-parser model (whole AST or exact error text).
+func genTotalStmt(r *rand.Rand, n int, emit func(args ...string)) {
+	for _, t := range []string{"", ";", ";;", "SELECT", "SELECT a FROM", "SELECT a FROM m fill()", "SELECT a FROM m fill(1, 2)", "SELECT a FROM m tz()", "SELECT a FROM m GROUP BY time()", "SELECT a FROM m WHERE", "SHOW", "SHOW TAG KEYS WITH KEY IN ()", "DROP", "CREATE USER u WITH PASSWORD", "GRANT", "KILL QUERY", "EXPLAIN", "SELECT a FROM (", "SELECT a FROM (SELECT b FROM m", "SELECT a INTO FROM m", "SELECT * FROM m LIMIT -1", "SELECT * FROM m LIMIT 9223372036854775808", "DELETE", "DELETE WHERE", "ALTER RETENTION POLICY p ON d", "CREATE DATABASE d WITH", "SELECT a FROM m; ; SELECT", "SELECT a FROM m SELECT b FROM n", "SELECT a FROM m /*", "SELECT a FROM m --", "SELECT a FROM m WHERE a =~ /", "SELECT 'a", "SELECT \"a", "SELECT a FROM m\x00", "SELECT $ FROM m", "SELECT a FROM $", "SELECT a FROM m LIMIT $"} {
+		emit(exprCase(t, map[string]interface{}{})...)
+	}
+	for i := 0; i < n; i++ {
+		var t string
+		switch r.Intn(8) {
+		case 0:
+			t = randBytes(r)
+		case 1, 2:
+			t = mutateBytes(r, pick(r, stmtPool))
+		case 3:
+			t = tokenSoup(r)
+		case 4:
+			t = mutateBytes(r, genStmtText(newSgen(r)))
+		default:
+			t = structuredHostile(r)
+		}
+		params := map[string]interface{}{}
+		if strings.Contains(t, "$") && r.Intn(4) != 0 {
+			params = randParams(r, []string{"p", "q", "r", "t", "d", "n", "x", "a b", "1", ""})
+		}
+		emit(exprCase(t, params)...)
+	}
+}
+
 func init() {
+	register(&stream{name: "total.stmt", gen: genTotalStmt, impl: implParseStmt, class: stmtClass,
+		nontrivial: func(args []string, out string) bool { return len(args[0]) > 60 }})
+	register(&stream{name: "total.query", gen: genTotalStmt, impl: implParseQuery, class: stmtClass,
+		nontrivial: func(args []string, out string) bool { return len(args[0]) > 60 }})
 	register(&stream{name: "total.scaling", gen: genTotalScaling, prop: propTotalScaling,
 		impl:       func(args []string) string { return "timed" },
 		class:      func(args []string, out string) string { return out },
